@@ -127,4 +127,8 @@ def _run(pm: ProgramModel, ctx: Ctx, mb: ModelBuilder, cd: Codec) -> None:
     if m1 is not None:
         cd.report("COMBINED", "rich-model", cd.last_rt, "model realising all dimensions at once",
                   ("abstract", "type", "fcard"), fragment=False)
+    if ctx.tier == "thorough":
+        cd.thorough_pairs(mb, OPS, "VOC", model_of=lambda trees: ctc_model(mb, [t for _, t in trees]))
+        cd.thorough_kind_pairs(mb, [D(1, 1, 1), D(0, 1, 1), D(1, 1, 2), D(1, 2, 2), D(0, 1, 2), D(2, 3, 3), D(0, 2, 2)],
+                               model_of=lambda ds: afm_model(mb, ds))
     cd.finish_unowned()
